@@ -310,7 +310,7 @@ class BaseGridSearch(BaseForecaster):
         -------
         cutoff : pd.Period, pd.Timestamp, int
         """
-        self.check_is_fitted()
+        self.check_is_fitted("cutoff")
         return self.best_forecaster_.cutoff
 
 
